@@ -72,6 +72,7 @@ def run(ctx, rep):
     rep.rule("R03.4", "one live proxy per remote object: every returned proxy came from, or was stored in, the proxy cache under one key")
     rep.rule("R03.5", "a reference is only sent for an object the owner holds, and the owner keeps it while a proxy lives (= R10.1-R10.4)")
     rep.rule("R03.6", "the identity function is total on its anchors: no unbound name in get_id_pack/_box/_unbox/_netref_factory")
+    rep.rule("R03.8", "values sent by copy keep their exact type and structure: writer/reader agreement of the serializer (= R04.1-R04.4)")
     rep.rule("R03.7", "copy transfer goes through pickle on the owner (obtain / deliver / __reduce_ex__)")
     rep.assume("equality of copied values is C04/C05's business; behaviour of pickle is trusted")
     consts = {n: ctx.const("rpyc.core.consts", n) for n in ("LABEL_VALUE", "LABEL_TUPLE", "LABEL_LOCAL_REF", "LABEL_REMOTE_REF")}
@@ -275,3 +276,6 @@ def run(ctx, rep):
     okd = len(rd_) == 1 and "pickle.loads(" in s and "pickle.dumps(%s)" % A.params(fd.node)[1] in s and s.startswith("conn.modules")
     rep.ob("R03.7", "classic.deliver: pickles locally and unpickles on the peer", okd,
            "conn.modules[...].pickle.loads(bytes(pickle.dumps(localobj)))" if okd else "deliver() is `%s`" % s, fd.loc)
+
+    # ------------------------------------------------------------------ R03.8
+    K.share(ctx, rep, "c04", lambda o: o.rule in ("R04.1", "R04.2", "R04.3", "R04.4"), "R03.8", floor=20)
